@@ -161,7 +161,7 @@ class RFC8323Remote:
                     pass
 
             if msg.code == PING:
-                pong = Message(code=PONG, token=msg.token)
+                pong = Message(code=PONG, _token=msg.token)
                 self._send_message(pong)
             elif msg.code == PONG:
                 pass
